@@ -172,6 +172,8 @@ type C06 struct{}
 func (C06) Name() string { return "C06" }
 
 func checkMembership(w *World, contact *flows.Contact, sa flows.SessionAssets, env1, env2 envs.Environment, where string, statusBefore string) {
+	var cj gen.J
+	var fieldTypes map[string]string
 	for _, g := range sa.Groups().All() {
 		if !g.UsesQuery() {
 			continue
@@ -184,6 +186,24 @@ func checkMembership(w *World, contact *flows.Contact, sa flows.SessionAssets, e
 		}
 		if q1 != q2 {
 			w.probe("c06_env_disagreement_relaxed")
+		}
+		// the documented meaning of the query, evaluated by the reference on the generic JSON of the
+		// contact: what the library's evaluator answers (even parsed afresh) is not taken on trust
+		if cj == nil {
+			json.Unmarshal(mustJSON(contact), &cj)
+			fieldTypes = map[string]string{}
+			for _, f := range sa.Fields().All() {
+				fieldTypes[f.Key()] = string(f.Type())
+			}
+		}
+		if r1, ok := RefQuery(g.Query(), cj, fieldTypes, env1.Timezone()); ok {
+			if r1 != q1 {
+				w.Violate("C06", "query-result", "C06.query-result/"+queryClass(g.Query()), fmt.Sprintf("after %s the query %q of group %q evaluates to %v on the contact, its documented meaning is %v; contact %s", where, g.Query(), g.Name(), q1, r1, clip(string(mustJSON(contact)), 1200)))
+				return
+			}
+			w.probe("c06_reference_semantics_checked")
+		} else {
+			w.probe("c06_reference_semantics_unsupported")
 		}
 		// what a query says about a contact does not depend on the order its URNs are stored in
 		if len(contact.URNs()) >= 2 {
